@@ -173,7 +173,11 @@ class EndpointsEmitter:
             tags = op.tags or [DEFAULT_TAG]
             for tag in tags:
                 key = NameSanitizer.normalize_tag_key(tag)
-                tag_key_to_ops.setdefault(key, []).append(op)
+                ops_for_key = tag_key_to_ops.setdefault(key, [])
+                # An operation that lists two spellings of one tag ("DataSources", "datasources") belongs to that
+                # tag's client once, not once per spelling
+                if not any(existing is op for existing in ops_for_key):
+                    ops_for_key.append(op)
                 tag_key_to_candidates.setdefault(key, []).append(tag)
 
         def tag_score(t: str) -> tuple[bool, int, int, str]:
